@@ -256,13 +256,16 @@ class P(Prop):
         (M, "TV.C13.writeToCsv_roundtrip", "the front end TrackWriter.writeToCsv(track, path, TrackFormat) writes what writeToFile writes with the format's ids, separator and header: the file is read back as the same observations"),
         (M, "TV.C13.writeToCsv_collection_roundtrip", "writeToCsv(collection, dir, TrackFormat) = writeToFiles: one file per track, each read back as its track"),
         (M, "TV.C13.csv_read_all_roundtrip", "feature columns: a file written with its header block and af_names, values of any kind (int, float, str, nan, inf), is read back by readFromCsv(h=0|1|2, read_all=True) as the same observations, the same feature names in order, and per observation the values expAF(name, value)"),
-        (M, "TV.C13.read_all_values", "what expAF is: int -> the same number, float n/10^d -> the printed decimal (value n/10^d), nan/inf -> themselves, a non-numeric string without quotes -> itself; names ending in & keep the text; ints and floats are always writable as one column"),
+        (M, "TV.C13.read_all_values", "what expAF is: int -> the same number, float n/10^d of ANY magnitude -> the decimal str() printed, positional or in exponent notation (value n/10^d, exactly), nan/inf -> themselves, a non-numeric string without quotes -> itself; names ending in & keep the text; ints are always writable as one column, floats when the separator is not a number character, e or +"),
         (M, "TV.C13.time_roundtrip", "readTimestamp(str(t)) gives back the fields named by a format of distinct full-width codes, for every stamp that fits the widths"),
         (M, "TV.C13.time_roundtrip_suffix", "the same when text follows the printed stamp (the Z of a GPX <time>)"),
         (M, "TV.C13.time_roundtrip_full", "with the six calendar codes the calendar part is read back identically"),
         (M, "TV.C13.fits_of_wf", "every well-formed ObsTime before year 10000 fits the widths"),
-        (M, "TV.C13.wkt_roundtrip", "parseWkt(track.toWKT()) returns the same vertices in the same order for every non-empty lattice track in ENU, Geo or ECEF coordinates"),
-        (M, "TV.C13.repr_value", "float(str(n/10^d)) has the value n/10^d (trailing zeros trimmed)"),
+        (M, "TV.C13.wkt_roundtrip", "parseWkt(track.toWKT()) returns the same vertices in the same order for every non-empty track in ENU, Geo or ECEF coordinates whose ordinates are ANY finite floats: negative zero, integer-valued, 17 digits, below 1e-4 / from 1e16 where str(float) prints the exponent notation"),
+        (M, "TV.C13.wkt_vertex_value", "each vertex parsed back has exactly the planimetric coordinates written (mantissa/10^decimals = +-mag/10^d, cross-multiplied) and third coordinate 0"),
+        (M, "TV.C13.wkt_upper", "what parseWkt works on: wkt.upper() of the exported text is the same text with the exponent marker E"),
+        (M, "TV.C13.repr_value", "float(str(x)) for x = +-mag/10^d of any magnitude: the text (positional, or exponent notation with e / E) is accepted by float() and the decimal read back has the value written"),
+        (M, "TV.C13.float_exponent_form", "float() of any literal [-]d[.ddd](e|E)(+|-)xx is the decimal digits/10^(n-1) * 10^xx"),
         (M, "TV.C13.network_row_roundtrip", "an edge line written by writeToCsv is split by csv.reader into its five fields and rebuilt by readLineAndAddToNetwork as the same edge"),
         (M, "TV.C13.net_file_roundtrip", "whole network file: h=1/header=1 and h=0/header=0 both return all edges in order"),
         (M, "TV.C13.gpx_file_roundtrip", "the body writeToGpx writes for a track is read by the trk scanner, with an ISO read format, as one track with the same points in order (elevation only for geographic coordinates)"),
@@ -270,9 +273,12 @@ class P(Prop):
         (M, "TV.C13.gpx_af_names_ok", "every feature name without < > newline, not starting with / and other than 'extensions', with a value text without < and newline, is fine for gpx_af_file_roundtrip - time, ele, trk, trkpt included"),
         (M, "TV.C13.reread_roundtrip", "a timestamp text read under ANY lossless read format f2 gives the stamp whose text under f2 it is - whatever format it was printed with and whatever was read before (the oracle clause of the reread / twin-format sessions)"),
         (M, "TV.C13.gpx_read_formats", "'4Y-2M-2DT2h:2m:2s' with or without Z reads the stamps the GPX writer prints, calendar part unchanged"),
-        (M, "TV.C13.written_precision_partial", "on the decimal lattice the printed coordinate and what float() reads denote the same number (format()'s rounding of arbitrary doubles not covered)"),
+        (M, "TV.C13.written_precision_partial", "the written precision is that of the text: the fixed-point text of CSV / GPX and the str(float) text of WKT (any magnitude, e or E) are read back by float() as exactly the decimal printed (format()'s rounding of arbitrary doubles and repr's choice of the shortest digits not covered)"),
     ]
-    partial = ["written_precision_partial: proves exact read-back on the 10^-d lattice; missing: Python's format()/float() rounding on arbitrary doubles (sampled: 'fix' stream, byte-for-byte file comparison, off-lattice tracks)"]
+    partial = ["written_precision_partial: proves that the decimal read back is the decimal printed, for the fixed-point formats and for str(float) over its whole range; "
+               "missing: Python's format() rounding on arbitrary doubles, repr()'s choice of the shortest round-trip digits and float()'s correctly rounded conversion "
+               "(sampled: 'fix' stream, byte-for-byte file comparison, off-lattice tracks, the full-range WKT / network / feature streams whose digits the harness "
+               "computes by exact rational arithmetic)"]
     open_statements = ["sessions: every operation of a session is modelled on its own, with the read / print formats in force when it runs (they move with the setfmt "
                        "operations and mid_print); the hidden state of the library (class-level formats, memo tables, counters) is not part of the model: that no call "
                        "leaves such state behind is checked by the session streams (global formats compared after every library call, the same texts read under twin "
@@ -280,7 +286,8 @@ class P(Prop):
                        "the string-level find/replace loops of ObsTime.__str__ and __precompileReadFmt are modelled on the tokenised format (codes recognised left to right); "
                        "equivalence with the string algorithm for formats whose literals are not code letters is checked by correspondence only",
                        "read_all: proved for reader header counts 0, 1, 2; hr = 3 (the names line consumed by the header loop, with its newline) is covered by "
-                       "correspondence only; float() of exponent forms / digit-group underscores in a feature column is outside the model (the generator avoids them)",
+                       "correspondence only; float() of digit-group underscores (1_000) and of exponents beyond the double range (1e400 -> inf) is outside the "
+                       "model (the generators avoid them)",
                        "TrackReader.parseWkt on POLYGON / MULTIPOLYGON texts (never written by tracklib) is modelled and compared on hand-made texts, without a theorem",
                        "readFromCsv's no_data_value and com arguments keep their defaults (-999999, '#'); `com` is ignored by the library anyway (TrackFormat reads the key 'cmt')"]
     modelled = ("TrackWriter.writeToFile (O list, sort, __printInOrder, float formats, feature columns with int / float / str / nan / inf values), "
@@ -289,19 +296,25 @@ class P(Prop):
                 "ending in &), ObsTime.__str__/__precompileReadFmt/readTimestamp/__fillMember "
                 "(tokenised format, no '*' wildcard), NetworkWriter.writeToCsv, NetworkReader.readFromFile + readLineAndAddToNetwork + "
                 "wktLineStringToObs + Network.addNode order (first registration of a node id wins, whatever the later end vertices), Track.toWKT (ENU, Geo, "
-                "ECEF), TrackWriter.writeToCsv (track -> writeToFile, collection -> writeToFiles), TrackReader.parseWkt (POLYGON, LINESTRING, the MULTIPOLYGON branch's AttributeError), TrackWriter.writeToGpx body "
+                "ECEF; ordinates printed by str(float) = float.__repr__'s layout rule over the whole range: positional, exponent notation below 1e-4 and from 1e16, "
+                "-0.0, 5.0), float() on decimal literals with an exponent part (e / E, signed exponent), TrackWriter.writeToCsv (track -> writeToFile, collection -> writeToFiles), TrackReader.parseWkt (POLYGON, LINESTRING, the MULTIPOLYGON branch's AttributeError), TrackWriter.writeToGpx body "
                 "with and without af=True (<extensions> block), "
                 "TrackReader.__readFromGpx (type trk: the <extensions> block skipped, then the per-tag steps gpxPt/gpxEndPt/gpxEle/gpxTime); the header block of writeToFile (h > 0: #srid, #ref point, #column names + feature names; no Reference epoch line, fmt.time_ini stays -1)")
     trusted = ["Python's format()/repr()/float()/int() on the decimal lattice are modelled by an own decimal printer/parser; the rounding done by format() on "
-               "off-lattice floats is computed by the harness with exact rational arithmetic and handed to the model",
+               "off-lattice floats, and the shortest round-trip digits repr() chooses for an arbitrary double, are computed by the harness with exact rational "
+               "arithmetic (`scaled`, `shortest`) and handed to the model, which lays them out (float.__repr__'s rule) and reads them back",
                "csv.reader is modelled as its documented state machine (delimiter, doublequote); file system calls are trusted"]
     rule = ("exhaustive: every column layout (24+6+6+2 id permutations) x separators , ; blank x h in {0,1} (header block written / not, read with the same h) x ENU/GEO/ECEF; "
             "writer h in {1,2,3} x reader header 0..5 (correspondence); random tracks of 1-6 fixes with "
             "negative / 1e6-large / many-decimal coordinates on and off the 1 mm / 1e-8 deg lattice, timestamps at midnight, month, year ends and leap days; "
             "time formats; feature columns (0-3, int / float / str / nan values, names incl. `k&`, `time`, `ele`) read back with read_all for writer h 0-3 x reader header 0-4; "
             "the front end writeToCsv on a track and on a collection (one file per track); GPX write/read, 40 % with af=True (feature names incl. time, ele, trk, trkpt); networks of 1-5 edges, three orientations, 2-5 vertices, ids that are numeric strings, user weights, half of them NOT "
-            "topologically exact (edges sharing a node id end up to a few units beside the node's registered position; self loops); WKT (ENU, Geo, ECEF) and hand-made "
-            "POLYGON / LINESTRING / MULTIPOLYGON texts; sessions of 2-6 operations (CSV, GPX to one file, GPX to one file per track in a directory, network, WKT, "
+            "topologically exact (edges sharing a node id end up to a few units beside the node's registered position; self loops), a quarter of them with vertices "
+            "from the whole float range (up to 1e60: edge lengths are squared); WKT (ENU, Geo, ECEF): half on the 1 mm / 1e-8 deg lattice (1e-08 is printed in exponent "
+            "notation), half any finite floats - exponent notation on both sides (1e-5 .. 5e-324, 1e16 .. 1.8e308), the values next to the two switches, the residues a "
+            "projection leaves on a point due east / north of its base (1.9e-05, -4.3e-12), -0.0, integer-valued, 17 significant digits, each layout as E and as N in "
+            "the three coordinate systems; a third of the off-lattice CSV / GPX coordinates and a quarter of the float feature values from the same classes; hand-made "
+            "POLYGON / LINESTRING / MULTIPOLYGON texts, a fifth of their ordinates in exponent form, well formed or not; sessions of 2-6 operations (CSV, GPX to one file, GPX to one file per track in a directory, network, WKT, "
             "timeWithZone, KML, readTimestamp / ObsTime(str)) sharing the global ObsTime formats - set once at the start, or changed by the user between operations "
             "(setfmt), between the write and the read of one file (mid_print), with twin formats (same literals and widths, two-character codes permuted) whose files hold "
             "the very same timestamp texts, files read by 2-3 readers; reread: one text under a sequence of read formats. Every multi-operation case runs in a child "
